@@ -96,19 +96,24 @@ WellFormed(T) ==
 ValOf(T, i) == IF T[i].c = "leaf" THEN T[i].v ELSE Cardinality(Kids(T, i))
 
 \* ---------------------------------------------------------------- denotational traversal (Stable order)
-Cb(st, ev, ctl) == [w |-> Append(st.w, ev), err |-> Amend(st.err, CtlAt(ctl, Len(st.w) + 1))]
+\* cb = 0: push and pop callbacks (Options.Range); 1: push only (the function protorange.Range); 2: pop only.
+\* A missing callback is neither recorded nor counted, and returns nothing.
+Cb(st, ev, ctl, cb) ==
+  IF (ev > 0 /\ cb = 2) \/ (ev < 0 /\ cb = 1) THEN st
+  ELSE [w |-> Append(st.w, ev), err |-> Amend(st.err, CtlAt(ctl, Len(st.w) + 1))]
 
-RECURSIVE Visit(_, _, _, _), Loop(_, _, _, _, _)
-Visit(K, ctl, i, st) ==
-  LET a == Cb(st, i, ctl)
+RECURSIVE Visit(_, _, _, _, _), Loop(_, _, _, _, _, _)
+Visit(K, ctl, cb, i, st) ==
+  LET a == Cb(st, i, ctl, cb)
       b == IF a.err # 0 THEN a
-           ELSE LET r == Loop(K, ctl, K[i], 1, a) IN [r EXCEPT !.err = IF @ = Break THEN 0 ELSE @]
-  IN Cb(b, -i, ctl)
-Loop(K, ctl, ks, j, st) ==
-  IF j > Len(ks) \/ st.err # 0 THEN st ELSE Loop(K, ctl, ks, j + 1, Visit(K, ctl, ks[j], st))
+           ELSE LET r == Loop(K, ctl, cb, K[i], 1, a) IN [r EXCEPT !.err = IF @ = Break THEN 0 ELSE @]
+  IN Cb(b, -i, ctl, cb)
+Loop(K, ctl, cb, ks, j, st) ==
+  IF j > Len(ks) \/ st.err # 0 THEN st ELSE Loop(K, ctl, cb, ks, j + 1, Visit(K, ctl, cb, ks[j], st))
 
-Walk(T, ctl) ==
-  LET r == Visit(KidsMap(T), ctl, 1, [w |-> <<>>, err |-> 0]) IN [walk |-> r.w, ret |-> Ret(r.err)]
+WalkCb(T, ctl, cb) ==
+  LET r == Visit(KidsMap(T), ctl, cb, 1, [w |-> <<>>, err |-> 0]) IN [walk |-> r.w, ret |-> Ret(r.err)]
+Walk(T, ctl) == WalkCb(T, ctl, 0)
 
 Pushes(w) == SelectSeq(w, LAMBDA x : x > 0)
 ValsOf(T, w) == LET p == Pushes(w) IN [k \in 1..Len(p) |-> ValOf(T, p[k])]
@@ -154,20 +159,24 @@ Accept(T, ctl, stable, w) ==
   [ok |-> a.ok /\ a.started /\ a.stack = <<>>, ret |-> Ret(a.err)]
 
 \* ---------------------------------------------------------------- what one case must show
-\* case {tree | (out.tree), ctl, stable}; out {walk, vals, ret, ok, valid}
+\* case {tree | (out.tree), ctl, stable, cb}; out {walk, vals, ret, ok, valid, npush, nev, ids}
 \*   ok    = 1: at every callback Path and Values had one entry per open step, the path was the stack of open steps,
 \*              and every value equalled the result of applying its step to the value before it (computed by the harness
 \*              with Get / List.Get / Map.Get / GetUnknown / Unmarshal of the Any)
 \*   valid = 1: constant; the specification decides whether the recorded walk is a traversal
+\*   ids      : the nodes of the recorded events, ascending
 TreeOf(e) == IF "tree" \in DOMAIN e THEN e.tree ELSE e.out.tree
+Abs(x) == IF x < 0 THEN -x ELSE x
 
 Expect(e) ==
   LET T == TreeOf(e) IN
   IF e.stable = 1 THEN
-    LET r == Walk(T, e.ctl) IN [walk |-> r.walk, vals |-> ValsOf(T, r.walk), ret |-> r.ret, ok |-> 1]
-  ELSE IF "out" \in DOMAIN e THEN
+    LET r == WalkCb(T, e.ctl, e.cb) IN [walk |-> r.walk, vals |-> ValsOf(T, r.walk), ret |-> r.ret, ok |-> 1]
+  ELSE IF "out" \in DOMAIN e /\ e.cb = 0 THEN
     LET a == Accept(T, e.ctl, FALSE, e.out.walk) IN
     [valid |-> IF a.ok /\ WellFormed(T) THEN 1 ELSE 0, vals |-> ValsOf(T, e.out.walk), ret |-> a.ret, ok |-> 1]
-  ELSE \* tour line for the unstable order (emitted without control values only): what does not depend on the order
-    LET r == Walk(T, e.ctl) IN [npush |-> Len(Pushes(r.walk)), nev |-> Len(r.walk), ret |-> r.ret, ok |-> 1]
+  ELSE \* unstable order, stated in advance (tour) or with one kind of callback only: what does not depend on the order;
+       \* such cases carry no control values
+    LET r == WalkCb(T, <<>>, e.cb) IN
+    [npush |-> Len(Pushes(r.walk)), nev |-> Len(r.walk), ret |-> 0, ok |-> 1, ids |-> [k \in 1..Len(T) |-> k]]
 =============================================================================
